@@ -15,4 +15,6 @@ REGISTRY = {
     "C01": _lazy("serde_checks", "run_c01"),
     "C02": _lazy("serde_checks", "run_c02"),
     "C16": _lazy("serde_checks", "run_c16"),
+    "C04": _lazy("layout_checks", "run_c04"),
+    "C09": _lazy("verifier_checks", "run_c09"),
 }
